@@ -289,10 +289,15 @@ class YncaCommandHandler(socketserver.StreamRequestHandler):
             up = value.startswith("Up")
 
             parts = value.split(" ")
-            amount = 0.5 if len(parts) == 1 else (int(parts[1]))
+            try:
+                amount = 0.5 if len(parts) == 1 else (int(parts[1]))
 
-            value = float(self.store.get_data(subunit, function))
-            value = str(value + (amount * (1 if up else -1)))
+                current_value = float(self.store.get_data(subunit, function))
+                value = str(current_value + (amount * (1 if up else -1)))
+            except ValueError:
+                # Unknown stepsize or no (numeric) volume known for this subunit.
+                # Leave the value as is, the store figures out how to respond.
+                pass
 
         # Store new value, will handle errors for unsupported functions
         result = self.store.put_data(subunit, function, value)
